@@ -9,6 +9,7 @@ import (
 	"path/filepath"
 	"runtime"
 	"strings"
+	"sync"
 
 	snes "github.com/alttpo/snes"
 	"github.com/alttpo/snes/asm"
@@ -100,6 +101,58 @@ func useLibrary(g *vf.Rng, c libCfg) {
 		_ = h.ReadHeader(bytes.NewReader(img[0x7FB0:]))
 		var wb bytes.Buffer
 		_ = h.WriteHeader(&wb)
+	})
+	consolePokes(g)
+}
+
+// consolePokes: ... and what a program that also runs the emulated console does: its software
+// initialises every chip register it knows of. All of the I/O space $2000-$5FFF of one system bank is
+// written twice (different values) and read back, through the bus and, for a handful of registers, by
+// the emulated CPU. The console is one per process and lives on.
+var libConsole struct {
+	mu sync.Mutex
+	s  *emulator.System
+}
+
+func consolePokes(g *vf.Rng) {
+	libConsole.mu.Lock()
+	defer libConsole.mu.Unlock()
+	vf.Try(func() {
+		if libConsole.s == nil {
+			s := new(emulator.System)
+			if err := s.CreateEmulator(); err != nil {
+				return
+			}
+			libConsole.s = s
+		}
+		s := libConsole.s
+		bank := []uint32{0x00, 0x80, 0x3F, 0xBF, 0x01}[g.Intn(5)] << 16
+		for round := 0; round < 2; round++ {
+			for a := uint32(0x2000); a < 0x6000; a++ {
+				v := g.U8()
+				if g.Intn(4) == 0 {
+					v &= 0x07
+				}
+				vf.Try(func() { s.Bus.EaWrite(bank|a, v) })
+			}
+		}
+		for a := uint32(0x2000); a < 0x6000; a++ {
+			vf.Try(func() { _ = s.Bus.EaRead(bank | a) })
+		}
+		// LDA #v ; STA long ; ... ; STP from work RAM
+		var prog []byte
+		for i := 0; i < 12; i++ {
+			a := bank | uint32(0x2000+g.Intn(0x4000))
+			if i < 6 {
+				a = bank | uint32([]int{0x2100, 0x2180, 0x2200, 0x2220, 0x4200, 0x4300}[i]+g.Intn(8))
+			}
+			prog = append(prog, 0xA9, g.U8()&0x87, 0x8F, byte(a), byte(a>>8), byte(a>>16))
+		}
+		prog = append(prog, 0xDB)
+		copy(s.WRAM[0x1E00:], prog)
+		c := &s.CPU
+		c.RK, c.PC, c.E, c.M, c.X, c.Stopped = 0x7E, 0x1E00, 0, 1, 1, false
+		s.RunUntil(0x7E1E00+uint32(len(prog))-1, 2000)
 	})
 }
 
